@@ -94,6 +94,108 @@ theorem readLoop_complete (k : ClientKind) (fl : Flusher) (reply : Bytes)
       simp only [h2, if_false, show ¬ ("timeout" = "eof") by decide, false_and, Bool.false_eq_true]
       exact ih (acc ++ c) _ hpre hb
 
+/-- the serial line: as `Frag`, and the port may also report its own read timeout as "no bytes, end of stream"
+(`(0, io.EOF)`), any number of times, before, inside and after the reply -/
+inductive FragSerial : Bytes → List Ev → Prop
+  | done (rest : List Ev) : FragSerial [] rest
+  | timeout {b : Bytes} {s : List Ev} : FragSerial b s → FragSerial b (.timeout :: s)
+  | eofEmpty {b : Bytes} {s : List Ev} : FragSerial b s → FragSerial b (.eof [] :: s)
+  | data {b : Bytes} {s : List Ev} (c : Bytes) : c ≠ [] → FragSerial b s → FragSerial (c ++ b) (.data c :: s)
+  | tdata {b : Bytes} {s : List Ev} (c : Bytes) : c ≠ [] → FragSerial b s → FragSerial (c ++ b) (.tdata c :: s)
+
+theorem Frag.toSerial {b : Bytes} {s : List Ev} (h : Frag b s) : FragSerial b s := by
+  induction h with
+  | done r => exact .done r
+  | timeout _ ih => exact .timeout ih
+  | data c hc _ ih => exact .data c hc ih
+  | tdata c hc _ ih => exact .tdata c hc ih
+
+/-- **fragmentation on the serial line**: the statement of `readLoop_complete` for the serial client, with empty
+end-of-stream reads allowed everywhere: they are skipped like timed-out reads -/
+theorem readLoop_complete_serial (fl : Flusher) (reply : Bytes)
+    (hmax : reply.length ≤ ClientKind.serial.maxLen)
+    (hnoexc : ∀ p q, p ++ q = reply → asProtocolError .serial p = none) :
+    ∀ (rest : Bytes) (script : List Ev), FragSerial rest script → ∀ (acc : Bytes) (log : List HookEv),
+      acc ++ rest = reply → rest ≠ [] →
+      ∃ log', readLoop .serial fl reply.length script acc log = (withFlush .serial fl (.frame reply), log') := by
+  intro rest script hf
+  induction hf with
+  | done _ => intro acc log _ hne; exact absurd rfl hne
+  | @timeout b s _ ih =>
+    intro acc log hacc hne
+    unfold readLoop
+    simp only [Ev.read, List.append_nil]
+    have hlen : acc.length < reply.length := by
+      rw [← hacc, List.length_append]
+      have : 0 < b.length := List.length_pos_iff.2 hne
+      omega
+    have h1 : ¬ (acc.length > ClientKind.serial.maxLen) := by omega
+    simp only [show ¬ ("timeout" = "io") by decide, if_false, h1, hnoexc acc b hacc]
+    have h2 : ¬ (acc.length ≥ reply.length) := by omega
+    simp only [h2, if_false, show ¬ ("timeout" = "eof") by decide, false_and, Bool.false_eq_true]
+    exact ih acc _ hacc hne
+  | @eofEmpty b s _ ih =>
+    intro acc log hacc hne
+    unfold readLoop
+    simp only [Ev.read, List.take_nil, List.append_nil]
+    have hlen : acc.length < reply.length := by
+      rw [← hacc, List.length_append]
+      have : 0 < b.length := List.length_pos_iff.2 hne
+      omega
+    have h1 : ¬ (acc.length > ClientKind.serial.maxLen) := by omega
+    simp only [show ¬ ("eof" = "io") by decide, if_false, h1, hnoexc acc b hacc]
+    have h2 : ¬ (acc.length ≥ reply.length) := by omega
+    simp only [h2, if_false, ne_eq, not_true_eq_false, and_false, Bool.false_eq_true]
+    exact ih acc _ hacc hne
+  | @data b s c hc _ ih =>
+    intro acc log hacc _
+    unfold readLoop
+    have hlen : acc.length + c.length + b.length = reply.length := by
+      rw [← hacc]; simp [List.length_append]; omega
+    have hspace : c.length ≤ ClientKind.serial.bufLen - acc.length := by
+      have := maxLen_lt_bufLen .serial; omega
+    simp only [Ev.read, List.take_of_length_le hspace]
+    have h1 : ¬ ((acc ++ c).length > ClientKind.serial.maxLen) := by simp [List.length_append]; omega
+    have hpre : (acc ++ c) ++ b = reply := by rw [List.append_assoc]; exact hacc
+    simp only [show ¬ ("nil" = "io") by decide, if_false, h1, hnoexc (acc ++ c) b hpre]
+    by_cases hb : b = []
+    · subst hb
+      have e : acc ++ c = reply := by simpa using hpre
+      have h3 : ¬ (reply.length = 0) := by
+        have : 0 < c.length := List.length_pos_iff.2 hc
+        rw [← e, List.length_append]; omega
+      simp only [e, ge_iff_le, Nat.le_refl, if_true, h3, if_false]
+      exact ⟨_, rfl⟩
+    · have h2 : ¬ ((acc ++ c).length ≥ reply.length) := by
+        have : 0 < b.length := List.length_pos_iff.2 hb
+        simp [List.length_append]; omega
+      simp only [h2, if_false, show ¬ ("nil" = "eof") by decide, false_and, Bool.false_eq_true]
+      exact ih (acc ++ c) _ hpre hb
+  | @tdata b s c hc _ ih =>
+    intro acc log hacc _
+    unfold readLoop
+    have hlen : acc.length + c.length + b.length = reply.length := by
+      rw [← hacc]; simp [List.length_append]; omega
+    have hspace : c.length ≤ ClientKind.serial.bufLen - acc.length := by
+      have := maxLen_lt_bufLen .serial; omega
+    simp only [Ev.read, List.take_of_length_le hspace]
+    have h1 : ¬ ((acc ++ c).length > ClientKind.serial.maxLen) := by simp [List.length_append]; omega
+    have hpre : (acc ++ c) ++ b = reply := by rw [List.append_assoc]; exact hacc
+    simp only [show ¬ ("timeout" = "io") by decide, if_false, h1, hnoexc (acc ++ c) b hpre]
+    by_cases hb : b = []
+    · subst hb
+      have e : acc ++ c = reply := by simpa using hpre
+      have h3 : ¬ (reply.length = 0) := by
+        have : 0 < c.length := List.length_pos_iff.2 hc
+        rw [← e, List.length_append]; omega
+      simp only [e, ge_iff_le, Nat.le_refl, if_true, h3, if_false]
+      exact ⟨_, rfl⟩
+    · have h2 : ¬ ((acc ++ c).length ≥ reply.length) := by
+        have : 0 < b.length := List.length_pos_iff.2 hb
+        simp [List.length_append]; omega
+      simp only [h2, if_false, show ¬ ("timeout" = "eof") by decide, false_and, Bool.false_eq_true]
+      exact ih (acc ++ c) _ hpre hb
+
 end Modbus.Lemmas
 
 namespace Modbus.Lemmas
